@@ -8,7 +8,7 @@ from sa.cfg import CFG, Node, calls_in
 from sa.guards import GuardWalk, is_opaque
 from sa.kern import make_evaluator
 from sa.report import Ctx
-from sa.srcmodel import ClassInfo, FuncInfo, func_body, mangle
+from sa.srcmodel import inline_locals, ClassInfo, FuncInfo, func_body, mangle
 from sa.symterm import Env, Poly, Unsupported, show_cond
 
 OBJ = "moptipyapps.dynamic_control.objective"
@@ -342,10 +342,20 @@ def _pairing(ctx: Ctx, fom: ClassInfo, le: ClassInfo) -> None:
                 e, c = eqs[0].value, cols[0].value
                 real = ast.unparse(e).endswith("system.equations")
                 csrc = ast.unparse(c)
+                # a local that is stored as one of the collections counts
+                # as that collection
+                held = {n_.value.id for n_ in ast.walk(m.node) if isinstance(
+                    n_, (ast.Assign, ast.AnnAssign)) and isinstance(
+                    getattr(n_, "value", None), ast.Name) and _self_attr(
+                    n_.targets[0] if isinstance(n_, ast.Assign)
+                    else n_.target) in ("__collection_sc",
+                                        "__collection_df")}
                 enabled = isinstance(c, ast.Compare) and len(
                     c.ops) == 1 and isinstance(
-                    c.ops[0], ast.IsNot) and _self_attr(c.left) in (
-                    "__collection_sc", "__collection_df") and isinstance(
+                    c.ops[0], ast.IsNot) and (_self_attr(c.left) in (
+                        "__collection_sc", "__collection_df") or (
+                        isinstance(c.left, ast.Name)
+                        and c.left.id in held)) and isinstance(
                     c.comparators[0], ast.Constant) and \
                     c.comparators[0].value is None
                 off = isinstance(c, ast.Constant) and c.value is False
@@ -468,7 +478,8 @@ def _returns(ctx: Ctx, fom: ClassInfo) -> None:
         v = e.node.value
         ok = False
         detail = ""
-        c = repo.const(ev.module, v) if v is not None else None
+        c = repo.const(ev.module, inline_locals(ev.node, v)) \
+            if v is not None else None
         if c == 1e200:
             ok = True
             detail = "returns the failure constant 1e200"
@@ -598,21 +609,62 @@ def _surrogate(ctx: Ctx) -> None:
 
 
 # ------------------------------------------------------------------ D11.6
-def _none_class(init: FuncInfo) -> dict[str, str]:
-    """field -> text of the condition under which it is None (or '')."""
-    out: dict[str, str] = {}
-    for n in ast.walk(init.node):
-        if isinstance(n, (ast.Assign, ast.AnnAssign)) and n.value is not None:
-            f = _self_attr(n.targets[0] if isinstance(n, ast.Assign)
-                           else n.target)
+def _field_cases(init: FuncInfo) -> dict[str, list[tuple[tuple, str]]]:
+    """field -> [(guards, kind)] over the paths through __init__ that do
+    not raise; kind is "none", "list" (a fresh empty list) or "other"."""
+    from sa.pathinline import paths
+    out: dict[str, list[tuple[tuple, str]]] = {}
+    try:
+        ps = [p for p in paths(func_body(init)) if p.ended != "raise"]
+    except ValueError:
+        return out
+    for p in ps:
+        seen_t: dict[str, bool] = {}
+        feasible = True
+        for t, tr in p.guards:
+            k_ = ast.unparse(t)
+            if seen_t.setdefault(k_, tr) != tr:
+                feasible = False      # the same test with both outcomes
+        if not feasible:
+            continue
+        for e in p.events:
+            if e.kind != "store":
+                continue
+            f = _self_attr(e.value)
             if f is None:
                 continue
-            v = n.value
-            if isinstance(v, ast.IfExp) and isinstance(
-                    v.orelse, ast.Constant) and v.orelse.value is None:
-                out[f] = ast.unparse(v.test)
-            elif isinstance(v, (ast.List, ast.ListComp)):
-                out[f] = ""
+            v = e.extra
+            if isinstance(v, ast.Name) and v.id in p.objs:
+                v = p.objs[v.id]
+            if isinstance(v, ast.Constant) and v.value is None:
+                kind = "none"
+            elif isinstance(v, (ast.List, ast.ListComp)) and not getattr(
+                    v, "elts", []):
+                kind = "list"
+            else:
+                kind = "other"
+            out.setdefault(f, []).append((p.guards, kind))
+    return out
+
+
+def _none_class(init: FuncInfo) -> dict[str, str]:
+    """field -> text of the condition under which it is a list rather than
+    None ('' if it always is a list), decided path by path."""
+    out: dict[str, str] = {}
+    for f, cases in _field_cases(init).items():
+        kinds = {k for _, k in cases}
+        if kinds == {"list"}:
+            out[f] = ""
+        elif kinds == {"list", "none"}:
+            # the test that separates the two kinds
+            tests = None
+            for g, k in cases:
+                here = {(ast.unparse(t), tr if k == "list" else not tr)
+                        for t, tr in g}
+                tests = here if tests is None else tests & here
+            if tests:
+                t, tr = sorted(tests)[0]
+                out[f] = t if tr else f"not ({t})"
     return out
 
 
@@ -629,7 +681,7 @@ def _reset(ctx: Ctx, fom: ClassInfo, le: ClassInfo) -> None:
                 if isinstance(n, ast.Call) and isinstance(
                         n.func, ast.Attribute) and n.func.attr in (
                         "append", "extend", "insert"):
-                    f = _self_attr(n.func.value)
+                    f = _self_attr(inline_locals(m.node, n.func.value))
                 elif isinstance(n, ast.AugAssign) and isinstance(
                         n.op, ast.Add):
                     f = _self_attr(n.target)
@@ -652,7 +704,8 @@ def _reset(ctx: Ctx, fom: ClassInfo, le: ClassInfo) -> None:
                     len(n.args) == 1 and isinstance(
                     n.args[0], ast.Subscript) and ast.unparse(
                     n.args[0].value) == dn:
-                got[_self_attr(n.func.value)] = ctx.repo.const(
+                got[_self_attr(inline_locals(
+                    ap.node, n.func.value))] = ctx.repo.const(
                     ap.module, n.args[0].slice)
         pair_ok = got == {"__collection_sc": 0, "__collection_df": 1}
     ctx.ob("D11.6", ap or ini, (ap or ini).node, pair_ok,
@@ -660,18 +713,21 @@ def _reset(ctx: Ctx, fom: ClassInfo, le: ClassInfo) -> None:
            "list and data[1] (differentials) to the df list" if pair_ok else
            "the collector does not store (state+control, differential) in "
            "the (sc, df) collections", construct="collector stores the pair")
-    # both collections exist exactly when model mode is supported
-    sup_ok = True
-    for n in ast.walk(init.node):
-        if isinstance(n, (ast.Assign, ast.AnnAssign)) and n.value is not None:
-            f = _self_attr(n.targets[0] if isinstance(n, ast.Assign)
-                           else n.target)
-            if f in ("__collection_sc", "__collection_df"):
-                v = n.value
-                sup_ok = sup_ok and isinstance(v, ast.IfExp) and isinstance(
-                    v.body, ast.List) and not v.body.elts and isinstance(
-                    v.orelse, ast.Constant) and v.orelse.value is None and \
-                    isinstance(v.test, ast.Name) and v.test.id in init.params
+    # both collections exist exactly when model mode is supported: on every
+    # path through __init__ they are fresh empty lists iff a parameter of
+    # the constructor is true, None otherwise
+    fc = _field_cases(init)
+    sup_ok = all(f in fc for f in ("__collection_sc", "__collection_df"))
+    for f in ("__collection_sc", "__collection_df"):
+        for g, kind in fc.get(f, []):
+            flags = [(t.id, tr) for t, tr in g if isinstance(t, ast.Name)
+                     and t.id in init.params]
+            flags += [(t.operand.id, not tr) for t, tr in g if isinstance(
+                t, ast.UnaryOp) and isinstance(t.op, ast.Not) and isinstance(
+                t.operand, ast.Name) and t.operand.id in init.params]
+            if len(set(flags)) != 1 or kind not in ("list", "none") or \
+                    (kind == "list") != flags[0][1]:
+                sup_ok = False
     ctx.ob("D11.6", init, init.node, sup_ok,
            "both collections are empty lists iff model mode is supported, "
            "else None" if sup_ok else
@@ -686,7 +742,7 @@ def _reset(ctx: Ctx, fom: ClassInfo, le: ClassInfo) -> None:
                     st.value, ast.Call) and isinstance(
                     st.value.func, ast.Attribute) and \
                     st.value.func.attr == "clear":
-                f = _self_attr(st.value.func.value)
+                f = _self_attr(inline_locals(ini.node, st.value.func.value))
                 if f is not None and not deep:
                     cleared.setdefault(f, guard)
             elif isinstance(st, (ast.Assign, ast.AnnAssign)) and isinstance(
@@ -702,9 +758,9 @@ def _reset(ctx: Ctx, fom: ClassInfo, le: ClassInfo) -> None:
                         isinstance(t.ops[0], ast.IsNot) and isinstance(
                         t.comparators[0], ast.Constant) and \
                         t.comparators[0].value is None:
-                    g = _self_attr(t.left)
-                elif _self_attr(t) is not None:
-                    g = _self_attr(t)        # `if self.__x:` non-empty
+                    g = _self_attr(inline_locals(ini.node, t.left))
+                elif _self_attr(inline_locals(ini.node, t)) is not None:
+                    g = _self_attr(inline_locals(ini.node, t))
                 if g is not None:
                     scan(st.body, g, False)
                 else:
@@ -1007,14 +1063,50 @@ def _assembly(ctx: Ctx, fom: ClassInfo, le: ClassInfo) -> None:
         src = ast.unparse(rets[0].value).replace(" ", "") if len(
             rets) == 1 else ""
         p = m.params[1]
+        rv = inline_locals(m.node, rets[0].value) if len(
+            rets) == 1 and rets[0].value is not None else None
+
+        def unfloat(e: Any) -> Any:
+            while isinstance(e, ast.Call) and isinstance(
+                    e.func, ast.Name) and e.func.id == "float" and len(
+                    e.args) == 1 and not e.keywords:
+                e = e.args[0]
+            return e
+
+        def mean_of(e: Any) -> Any:
+            """X for `X.mean()` / `np.mean(X)`, else None."""
+            e = unfloat(e)
+            if isinstance(e, ast.Call) and isinstance(
+                    e.func, ast.Attribute) and e.func.attr == "mean":
+                if not e.args and not e.keywords and not (isinstance(
+                        e.func.value, ast.Name)
+                        and e.func.value.id == "np"):
+                    return e.func.value
+                if isinstance(e.func.value, ast.Name) and \
+                        e.func.value.id == "np" and len(e.args) == 1 and \
+                        not e.keywords:
+                    return e.args[0]
+            return None
+
+        def is_p(e: Any) -> bool:
+            return isinstance(e, ast.Name) and e.id == p
         if want == "mean":
-            ok = src in (f"float({p}.mean())", f"{p}.mean()",
-                         f"float(np.mean({p}))")
+            ok = is_p(mean_of(rv))
         else:
-            ok = src in (f"float(expm1(np.log1p({p},{p}).mean()))",
-                         f"float(expm1(np.log1p({p}).mean()))",
-                         f"float(np.expm1(np.log1p({p}).mean()))",
-                         f"float(np.expm1(np.log1p({p},{p}).mean()))")
+            e_ = unfloat(rv)
+            ok = False
+            if isinstance(e_, ast.Call) and ast.unparse(e_.func) in (
+                    "expm1", "np.expm1", "math.expm1") and len(
+                    e_.args) == 1 and not e_.keywords:
+                x_ = mean_of(e_.args[0])
+                if isinstance(x_, ast.Call) and ast.unparse(x_.func) in (
+                        "np.log1p", "log1p") and x_.args and is_p(
+                        x_.args[0]):
+                    outs = list(x_.args[1:]) + [
+                        k_.value for k_ in x_.keywords if k_.arg == "out"]
+                    other_kw = [k_ for k_ in x_.keywords if k_.arg != "out"]
+                    ok = len(outs) <= 1 and all(
+                        is_p(o_) for o_ in outs) and not other_kw
         if not ok:
             problems.append(
                 f"{cls.name}.sum_up_results returns `{src}`, expected "
